@@ -95,6 +95,24 @@ CHECKS = {
    text="Each generated program is rendered twice from the same AST - canonically and after a random composition of a consistent injective renaming of all user identifiers (ordinary, odd and compiler-generated-looking names), redundant parentheses, annotations with the generator's own types, comments, indentation and blank lines - and both are compiled and run on the VM: accept/reject and every output word must agree.",
    note="Record field names are not renamed; line breaks are only varied between statements and inside blocks. Three open findings (feed_idN, _mimium_global, parenthesised records/lambdas) are excluded from the transformation pool and pinned by replays.",
    design="2.C16"),
+ "C09": dict(
+   category="exploration",
+   technique="differential testing of generated staged programs against their hand expansion produced by the generator (substitution on the harness AST)",
+   text="A generator builds a stage-1 expression and one of six staging contexts (quote-splice, macro function used as f!() and $(f()), code parameters, let-bound code, numeric recursion building code, lift of macro-stage numbers) and emits both the staged program and its manual expansion; both run on the VM (a tuple-free tenth also on WASM) and must agree bitwise; lifted constants are compared with the harness's own f64 computation.",
+   note="The expansion is produced by substitution in the harness, never by the repository's expander. Quoted records, arrays, match, strings and three or more stages are not generated.",
+   design="2.C09"),
+ "C10": dict(
+   category="exploration",
+   technique="metamorphic testing: alpha-renaming of binders inside macro bodies over generated macro/use-site pairs with deliberate name collisions, plus exhaustive probes of compiler temporaries",
+   text="Macro bodies that bind a local around or next to a splice are paired with use sites that mention names from a collision pool (the binder's name, compiler temporaries, ordinary names); the program and its variant with the macro's binders renamed to fresh names must be accepted alike and produce bitwise equal outputs, and agree with the capture-avoiding expansion. Eleven hand-written probes of compiler-synthesised names are enumerated exhaustively.",
+   note="Five open findings (capture by macro binders, let leaking out of blocks, feed_idN, __dtN, record_update_temp) decide most colliding cases; those cases are skipped and counted, the `agree` space searches where the binding models predict no capture.",
+   design="2.C10"),
+ "C18": dict(
+   category="exploration",
+   technique="differential testing VM vs rustc-compiled generated Rust over generated programs and shipped sources",
+   text="Generated programs and shipped sources are transpiled with emit_rust; a refusal is legal, emitted Rust must compile with rustc together with the repository's own host template and print the same output words as the VM for 1-16 samples (time advanced by one per sample).",
+   note="About 0.4 s per case, so the quick tier is ~100 programs. Eight open findings of the Rust backend are tolerated by narrow predicates on the emitted Rust text or rewritten away in the generator.",
+   design="2.C18"),
 }
 
 NOT_YET = {
